@@ -57,23 +57,62 @@ func wModel(shape, d int) (*openfgav1.AuthorizationModel, int) {
 			meta[r(i)] = &openfgav1.RelationMetadata{DirectlyRelatedUserTypes: []*openfgav1.RelationReference{fRef("user")}}
 		case 7: // r_i: [doc#r_i, doc#r_{i-1}, user]     userset cycles per layer
 			direct(r(i), fUserset("doc", r(i)), fUserset("doc", prev), fRef("user"))
+		case 9: // r_i: r_{i+1} (a chain of computed usersets), closed below by r_d: r0 from p or ... or r_{d-1} from p
+			if i < d {
+				rels[r(i)] = fComputed(r(i + 1))
+			} else {
+				var cs []*openfgav1.Userset
+				for j := 0; j < d; j++ {
+					cs = append(cs, fTTU(r(j), "p"))
+				}
+				rels[r(d)] = wUnion(cs...)
+			}
 		}
+	}
+	size := 0
+	switch shape {
+	case 8: // every relation assignable from every other one: r_i: [user, doc#r_1, ..., doc#r_d] - the number of
+		// elementary cycles is factorial in d while the model has d*(d+1) restrictions
+		for i := 1; i <= d; i++ {
+			refs := []*openfgav1.RelationReference{fRef("user")}
+			for j := 1; j <= d; j++ {
+				refs = append(refs, fUserset("doc", r(j)))
+			}
+			direct(r(i), refs...)
+		}
+		size = d * (d + 2)
+	case 9:
+		rels["r0"] = wUnion(fThis(), fComputed("r1"))
+		size = 3 * d
 	}
 	m := &openfgav1.AuthorizationModel{SchemaVersion: "1.1", TypeDefinitions: []*openfgav1.TypeDefinition{
 		{Type: "user"},
 		{Type: "doc", Relations: rels, Metadata: &openfgav1.Metadata{Relations: meta}},
 	}}
+	if size > 0 {
+		// families whose text grows faster than their number of relations: n is the size of the model
+		return m, size
+	}
 	return m, len(rels)
 }
 
-const wShapes = 8
+const wShapes = 10
 
 // VerifC08_BoundedWork: both graph builders on every family and every depth 1..D within the budget
 // A + B*n*n instructions (parameters WA, WB; derived from the unchanged tree with a wide margin, see
 // check.py).  MEASURE=1 reports the instructions used instead (calibration run, no budget).
 func VerifC08_BoundedWork() {
-	shape := zzverif.Choose("shape", wShapes)
+	shape := zzverif.Param("SHAPE", -1)
+	if shape < 0 {
+		shape = zzverif.Choose("shape", wShapes)
+	}
 	d := 1 + zzverif.Choose("depth", zzverif.Param("D", 12))
+	if dmin := zzverif.Param("DMIN", 0); d < dmin {
+		return
+	}
+	if shape == 8 && d > 16 {
+		return // the text of this family grows with the square of d: 16 is 288 restrictions
+	}
 	m, n := wModel(shape, d)
 	budget := zzverif.Param("WA", 200000) + zzverif.Param("WB", 4000)*n*n
 	if zzverif.Param("MEASURE", 0) == 1 {
@@ -100,5 +139,54 @@ func VerifC08_BoundedWork() {
 	if err == nil {
 		zzverif.Assert(g != nil, "result-or-error")
 		zzverif.Reach("plain-accepted")
+		// the queries on the plain graph: cycle information, reversal, DOT text
+		zzverif.Budget("plain-graph-cycle-query-within-quadratic-bound", budget)
+		g.GetCycles()
+		used = zzverif.BudgetEnd()
+		if zzverif.Param("MEASURE", 0) == 1 {
+			zzverif.Observe("cycles shape="+strconv.Itoa(shape)+" d="+strconv.Itoa(d)+" n="+strconv.Itoa(n), strconv.Itoa(used))
+		}
 	}
+}
+
+
+// VerifC08_Growth: the work clause as a growth condition.  A budget A + B*n*n with generous constants only trips on
+// an exponential computation; a cubic or quartic one stays below it for the sizes inside the bound.  Here the weighted
+// builder is measured at depth d and at depth 2d of the same family (instructions executed - deterministic under the
+// executor): for work that is at most quadratic in the size of the model, doubling the size multiplies the work by
+// about four at most (lower-order terms only lower the ratio), so  work(2d) <= 1.25 * (size(2d)/size(d))^2 * work(d)
+// (1.25 * 4 = 5 for the families whose size is linear in d; a cubic computation gives 8).  Natively the two builds are
+// timed (slowest of twelve, the start node comes from map order) at twice the depth.
+func VerifC08_Growth() {
+	shape := zzverif.Choose("shape", wShapes)
+	d := zzverif.Param("D", 24)
+	if shape == 8 {
+		d = 8
+	}
+	if !zzverif.Symbolic() && shape != 8 {
+		d *= 2
+	}
+	m1, n1 := wModel(shape, d)
+	m2, n2 := wModel(shape, 2*d)
+	measure := func(m *openfgav1.AuthorizationModel) int {
+		// natively the start node of the traversal comes from map order and the work depends on it: the slowest
+		// of twelve builds (the executor measures the one order it is given)
+		worst := 0
+		runs := 1
+		if !zzverif.Symbolic() {
+			runs = 12
+		}
+		for i := 0; i < runs; i++ {
+			w := zzverif.Work(func() { NewWeightedAuthorizationModelGraphBuilder().Build(m) })
+			if w > worst {
+				worst = w
+			}
+		}
+		return worst
+	}
+	w1, w2 := measure(m1), measure(m2)
+	zzverif.Class("weighted-graph-work-grows-at-most-quadratically", []string{"union of repeated computed usersets", "diamonds of computed usersets", "intersections", "exclusions", "tuple-to-userset diamonds", "userset restrictions plus rewrite", "recursive relation per layer", "userset cycles per layer", "every relation assignable from every other", "chain of computed usersets closed by tuple-to-usersets"}[shape])
+	// integers only: w2 * 4 * n1^2 <= 5 * n2^2 * w1
+	zzverif.Assert(w2*4*n1*n1 <= 5*n2*n2*w1, "weighted-graph-work-grows-at-most-quadratically")
+	zzverif.Reach("measured")
 }
